@@ -44,6 +44,43 @@ def build(pos, v):
     raise ValueError(pos)
 
 
+# values that are equal (or hash-equal) in Python but are different SQL constants, plus a few strings
+TWIN_VALUES = [0, 1, 2, True, False, 0.0, 1.0, 2.0, -1, -1.0, 1.5, '1', '0', '1.0', 'True', 'a', '', None]
+PAIR_POSITIONS = ['select2', 'where2', 'in2', 'insert2', 'update2']
+
+
+def build2(pos, v1, v2):
+    c = lambda v: (A.NullConstant() if v is None else A.Constant(v))
+    t = A.Identifier('t')
+    if pos == 'select2':
+        return A.Select(targets=[A.Constant(v1, alias=A.Identifier('k1')) if v1 is not None else A.NullConstant(alias=A.Identifier('k1')),
+                                 A.Constant(v2, alias=A.Identifier('k2')) if v2 is not None else A.NullConstant(alias=A.Identifier('k2'))])
+    if pos == 'where2':
+        return A.Select(targets=[A.Identifier('a')], from_table=t,
+                        where=A.BinaryOperation('and', args=[A.BinaryOperation('=', args=[A.Identifier('c'), c(v1)]), A.BinaryOperation('=', args=[A.Identifier('d'), c(v2)])]))
+    if pos == 'in2':
+        return A.Select(targets=[A.Identifier('a')], from_table=t, where=A.BinaryOperation('in', args=[A.Identifier('c'), A.Tuple(items=[c(v1), c(v2)])]))
+    if pos == 'insert2':
+        return A.Insert(table=t, columns=[A.Identifier('a'), A.Identifier('b')], values=[[c(v1), c(v2)]])
+    if pos == 'update2':
+        return A.Update(table=t, update_columns={'a': c(v1)}, where=A.BinaryOperation('=', args=[A.Identifier('b'), c(v2)]))
+    raise ValueError(pos)
+
+
+def value_tokens(toks):
+    """the tokens of a scanned text that stand for constants: strings, numbers (with their sign) and the words TRUE / FALSE / NULL"""
+    out = []
+    for i, (k, raw, _v) in enumerate(toks):
+        if k == 'S':
+            out.append(raw)
+        elif k == 'N':
+            neg = i > 0 and toks[i - 1][:2] == ('P', '-') and (i < 2 or toks[i - 2][0] in ('P', 'W') and toks[i - 2][1] not in (')',))
+            out.append(('-' if neg else '') + raw)
+        elif k == 'W' and raw in ('TRUE', 'FALSE', 'NULL'):
+            out.append(raw)
+    return out
+
+
 def scan(text, target):
     """lexical scan by the target's rules -> list of (kind, raw, value) or None if a literal is unterminated.
     kinds: S string literal, Q quoted identifier, N number, W word, P punctuation"""
@@ -217,6 +254,11 @@ class CHECK(Check):
         for v in others:
             for pos in POSITIONS:
                 out.append((pos, v))
+        # two constants in one statement, and two statements on one renderer object (all ordered pairs of the twin values)
+        for i, j in itertools.product(range(len(TWIN_VALUES)), repeat=2):
+            for pos in PAIR_POSITIONS:
+                out.append((pos, (i, j)))
+            out.append(('sequence', (i, j)))
         return out
 
     def render(self, target, tree):
@@ -224,9 +266,57 @@ class CHECK(Check):
             return str(tree)
         return self.renders[target].get_string(tree, with_failback=False)
 
+    def literal_alone(self, target, v):
+        """the constant tokens of `SELECT <v> AS k1` rendered by a renderer object that has rendered nothing else"""
+        tree = build2('select2', v, 'zz')
+        text = str(tree) if target == 'to_string' else SqlalchemyRender(target).get_string(tree, with_failback=False)
+        toks = scan(text, target)
+        vt = value_tokens(toks) if toks is not None else None
+        return vt[:-1] if vt else vt
+
+    def run_pair(self, res, pos, ij):
+        """the literal standing for a constant must not depend on the other constants of the statement, nor on what the same
+        renderer object rendered before: it equals the literal the constant gets when rendered alone by a new renderer"""
+        v1, v2 = TWIN_VALUES[ij[0]], TWIN_VALUES[ij[1]]
+        for target in TARGETS:
+            try:
+                a1, a2 = self.literal_alone(target, v1), self.literal_alone(target, v2)
+            except Exception:
+                res.count('benign_render_unsupported')
+                continue
+            if a1 is None or a2 is None:
+                continue
+            try:
+                if pos == 'sequence':
+                    if target == 'to_string':
+                        continue
+                    r = SqlalchemyRender(target)
+                    r.get_string(build2('select2', v1, 'zz'), with_failback=False)
+                    text = r.get_string(build2('select2', v2, 'zz'), with_failback=False)
+                    want = a2 + ["'zz'"]
+                else:
+                    tree = build2(pos, v1, v2)
+                    text = str(tree) if target == 'to_string' else SqlalchemyRender(target).get_string(tree, with_failback=False)
+                    want = a1 + a2
+            except Exception as e:
+                res.count('pair_render_unsupported')
+                continue
+            res.count('pair_renders')
+            res.key((target, pos, text))
+            toks = scan(text, target)
+            got = value_tokens(toks) if toks is not None else None
+            if got != want:
+                kinds = '+'.join(sorted({type(v1).__name__, type(v2).__name__}))
+                what = 'after-earlier-statement' if pos == 'sequence' else 'next-to-other-constant'
+                res.violation(f'{target}|constant-literal-depends-on-context|{what}|{kinds}',
+                              f'constants {v1!r}, {v2!r} ({pos}): rendered {text!r} with constant tokens {got!r}; rendered alone they are {a1!r} and {a2!r}')
+        return res
+
     def run(self, case):
         res = Result()
         pos, v = case
+        if pos in PAIR_POSITIONS or pos == 'sequence':
+            return self.run_pair(res, pos, v)
         if self.renders is None:
             self.renders = {n: SqlalchemyRender(n) for n in TARGETS if n != 'to_string'}
             self.con = sqlite3.connect(':memory:')
@@ -313,10 +403,12 @@ class CHECK(Check):
 
     def coverage(self, agg):
         return {'exhaustive': True, 'alphabet': ALPHA if self.tier == 'thorough' else ALPHA[:12], 'positions': POSITIONS, 'targets': TARGETS,
-                'rule': 'all strings up to the length bound + numbers/booleans/NULL/dates x 7 positions x 6 renderings; distinct_nontrivial = distinct '
+                'rule': 'all strings up to the length bound + numbers/booleans/NULL/dates x 7 positions x 6 renderings; all ordered pairs of 18 twin values (0 / False / 0.0, 1 / True / 1.0 / "1" ...) as two constants of one statement in 5 positions and as two statements on one renderer object; distinct_nontrivial = distinct '
                         '(target, position, rendered text)'}
 
     def describe_case(self, case):
+        if case[0] in PAIR_POSITIONS or case[0] == 'sequence':
+            return {'position': case[0], 'values': [repr(TWIN_VALUES[case[1][0]]), repr(TWIN_VALUES[case[1][1]])]}
         return {'position': case[0], 'value': case[1] if not isinstance(case[1], (dt.date, dt.datetime)) else str(case[1])}
 
     def encode_case(self, case):
@@ -329,6 +421,8 @@ class CHECK(Check):
 
     def decode_case(self, c):
         v = c[1]
+        if c[0] in PAIR_POSITIONS or c[0] == 'sequence':
+            return (c[0], tuple(v))
         if isinstance(v, dict) and 'datetime' in v:
             v = dt.datetime.fromisoformat(v['datetime'])
         elif isinstance(v, dict) and 'date' in v:
